@@ -5,6 +5,7 @@ from __future__ import annotations
 import numpy as np
 from hypothesis import strategies as st
 
+from mzverif import core
 from mzverif import gen as G
 from mzverif import lib as L
 from mzverif import model as M
@@ -96,16 +97,38 @@ def check(case: dict):
     compsize = len(V) if (V is not None and not flag) else rc
     if r >= 2 and c >= 2 and compsize >= 2:
         labels.append("endpoints-drawn")
+        # plain draws must succeed; draws under endpoint options (a pure function of the case) may be refused in the documented way
+        # when the options leave nothing, but whatever comes back joins two mutually reachable cells
+        d = core.digest(case)
+        region = sorted(V) if (V is not None and not flag) else M.cells(g)
+        some = [list(region[(d >> 7) % len(region)])]
+        optsets = [{}, {"endpoints_not_equal": True, "deadend_start": True}, {}, {"deadend_end": True, "endpoints_not_equal": bool(d & 1)},
+                   {"allowed_start": some, "endpoints_not_equal": True}, {"allowed_end": some}, {}]
         for k in range(5):
+            opts = optsets[(d + k * (1 + (d >> 3) % 3)) % len(optsets)] if k else {}
             try:
-                p = m.generate_random_path()
+                p = m.generate_random_path(**opts)
             except Exception as ex:  # noqa: BLE001
+                if opts and isinstance(ex, ValueError):
+                    continue
                 raise Violation(
                     f"C12:{name}:random-path-raises:{type(ex).__name__}",
-                    f"{r}x{c} {kw}: generate_random_path raised {type(ex).__name__}: {str(ex)[:120]}; bits={g['cl']}",
+                    f"{r}x{c} {kw}: generate_random_path({opts}) raised {type(ex).__name__}: {str(ex)[:120]}; bits={g['cl']}",
                 )
             p = L.as_cells(p)
             require(p[-1] in M.component(a, p[0]), f"C12:{name}:endpoints-not-connected", f"{p[0]} and {p[-1]} are in different components")
+            if opts:
+                labels.append("endpoints-drawn-with-options")
+        # the metadata still tells the truth after the maze has been used
+        meta2 = m.generation_meta
+        require(isinstance(meta2, dict), f"C12:{name}:no-meta", "generation_meta disappeared after endpoints were drawn")
+        vc2 = meta2.get("visited_cells", None)
+        if vc is not None:
+            V2 = (set(L.as_cells(np.array(list(vc2)))) if len(vc2) > 0 else set()) if vc2 is not None else None
+            require(V2 == V, f"C12:{name}:visited-cells-changed-by-use", f"{r}x{c} {kw}: after drawing endpoints the recorded visited cells are "
+                    f"{None if V2 is None else len(V2)} cells (were {len(V)}); missing={sorted(V - (V2 or set()))[:5]} bits={g['cl']}")
+        require(bool(meta2.get("fully_connected", False)) == flag, f"C12:{name}:flag-changed-by-use", "fully_connected flag changed after endpoints were drawn")
+        require(np.array_equal(np.asarray(m.connection_list), M.g_cl(g)), f"C12:{name}:maze-changed-by-use", "connection structure changed after endpoints were drawn")
     nt = (not fully) and V is not None and len(V) >= 2
     if not fully:
         labels.append("not-fully-connected")
